@@ -4,6 +4,7 @@ import (
 	"context"
 	"io"
 	"io/ioutil"
+	"strings"
 
 	. "github.com/warpfork/go-errcat"
 	"gopkg.in/src-d/go-git.v4/plumbing/filemode"
@@ -110,7 +111,7 @@ func unpack(
 	//  We'll do submodule checkouts somewhere deep in the middle of this.
 	tr, err := whCtrl.GetTree(wareID.Hash)
 	if err != nil {
-		panic(err)
+		return api.WareID{}, Errorf(rio.ErrWareCorrupt, "corrupt git commit: %s", err)
 	}
 
 	// Construct filesystem wrapper to use for all our ops.
@@ -168,6 +169,10 @@ func unpackOneRepo(
 		//   we define some defaults (and these will be the ones used in
 		//   any caching which is indexed by the git native hash; if you use
 		//   filters to override them, you'll cache miss in the usual way).
+		// (go-git does not validate tree entry names; an absolute one is no path of a tree.)
+		if strings.HasPrefix(name, "/") {
+			return Errorf(rio.ErrWareCorrupt, "corrupt git tree: entry name %q is an absolute path", name)
+		}
 		fmeta.Name = fs.MustRelPath(name)
 		fmeta.Uid = 1000
 		fmeta.Gid = 1000
@@ -217,7 +222,7 @@ func unpackOneRepo(
 			}
 			submTr, err := submCtrl.GetTree(te.Hash.String())
 			if err != nil {
-				panic(err)
+				return Errorf(rio.ErrWareCorrupt, "corrupt git submodule %q: %s", name, err)
 			}
 			submFs := osfs.New(afs.BasePath().Join(fmeta.Name))
 			if err := unpackOneRepo(ctx, submTr, submFs, false, filt, nil, mon); err != nil {
